@@ -14,11 +14,12 @@ L3 (the property on the implementation's outputs): finite, non-negative, the thr
     (relative to the second moment: E[m²] − mean² cancels catastrophically), means <= 4·n·eps·mean|m_t|.
 """
 import math
+import pickle
 import threading
 
 import numpy as np
 
-from .common import rat
+from .common import HarnessError, VERIF, rat, unrat
 
 EPS = 2.0 ** -52
 
@@ -33,7 +34,7 @@ def _gen_case(rng, thorough):
     d = rng.randint(1, 6)
     kind = rng.choice(["gauss", "gauss", "const", "dupX", "dupXY", "huge", "tiny", "mixedscale", "ints", "offset"])
     kw = {
-        "n_estimators": rng.choice([1, 1, 2, 3, 5, 10, 20, 50]) if rng.random() < 0.8 else rng.randint(1, 50),
+        "n_estimators": rng.choice([1, 2, 3, 5, 5, 7, 10, 10, 20, 50]) if rng.random() < 0.8 else rng.randint(1, 50),
         "bootstrap": rng.random() < 0.5,
         "min_samples_split": rng.choice([2, 2, 3, 5, 10, 0.5]),
         "min_variance": rng.choice([0.0, 0.0, 1e-3, 1e-12, 2.5, 1e6]),
@@ -45,8 +46,58 @@ def _gen_case(rng, thorough):
         kw["splitter"] = rng.choice(["best", "random"])
         if kw["bootstrap"] and rng.random() < 0.4:
             kw["max_samples"] = rng.choice([0.8, 0.5])
-    return {"cls": cls, "n": n, "d": d, "kind": kind, "kw": kw, "seed": rng.randrange(1 << 30),
-            "nq": rng.choice([3, 6, 10])}
+    case = {"cls": cls, "n": n, "d": d, "kind": kind, "kw": kw, "seed": rng.randrange(1 << 30),
+            "nq": rng.choice([3, 6, 10]), "n_jobs0": rng.choice([1, 1, 1, 4, 3, 2])}
+    case["history"] = _gen_history(rng, case)
+    return case
+
+
+MINVARS = [0.0, 1e-12, 1e-3, 2.5, 1e6, 7.0]
+FORMS = ["plain", "std", "dis"]
+
+
+def _gen_history(rng, case):
+    """Short op script on ONE fitted forest.  After the fit and after every op all three predict forms are
+    called (in the op's `forms` order) and judged with the parameters in force at that moment."""
+    def forms():
+        f = FORMS[:]
+        rng.shuffle(f)
+        return f
+
+    hist = [{"op": "fit", "forms": forms()}]
+    nj = case["n_jobs0"]
+    style = rng.choice(["njobs", "njobs", "minvar", "minvar", "mixed", "mixed", "lifecycle"])
+    k = rng.choice([1, 2, 2, 3]) if style != "njobs" else 1
+    for _ in range(k):
+        if style == "njobs":
+            op = {"op": "set_params", "n_jobs": 4 if nj == 1 else rng.choice([1, 4])}
+        elif style == "minvar":
+            mv = rng.choice([v for v in MINVARS if v != case["kw"]["min_variance"]])
+            op = {"op": rng.choice(["set_params", "setattr"]), "min_variance": mv}
+        elif style == "lifecycle":
+            op = {"op": rng.choice(["clone_refit", "pickle", "predict"])}
+            if op["op"] == "predict":
+                op["form"] = rng.choice(FORMS)
+        else:
+            r = rng.random()
+            if r < 0.35:
+                op = {"op": "set_params", "min_variance": rng.choice(MINVARS), "n_jobs": rng.choice([1, 2, 3, 4, 4])}
+            elif r < 0.5:
+                op = {"op": "setattr", "min_variance": rng.choice(MINVARS)}
+            elif r < 0.65:
+                op = {"op": "predict", "form": rng.choice(FORMS)}
+            elif r < 0.8:
+                op = {"op": "clone_refit"}
+            else:
+                op = {"op": "pickle"}
+        if "n_jobs" in op:
+            nj = op["n_jobs"]
+        op["forms"] = forms()
+        hist.append(op)
+    # every history visits a parallel state at least once (n_estimators % n_jobs != 0 is common: 5, 7, 10, 50 trees)
+    if case["n_jobs0"] == 1 and not any(o.get("n_jobs", 1) > 1 for o in hist):
+        hist.append({"op": "set_params", "n_jobs": 4, "forms": forms()})
+    return hist
 
 
 def _data(case):
@@ -83,167 +134,309 @@ def _data(case):
 
 
 class _OrderSpy:
-    """wraps forest._accumulate_prediction*: serialises the calls and records the tree order"""
+    """wraps forest._accumulate_prediction*: serialises the calls and records which tree each call handles.
+    Purely an observation aid for the model's fold-order input: anything unexpected (functions renamed, called
+    with something that is not one tree, not called at all) is reported by the caller as an L2 mismatch — never
+    as a harness error — and the oracle still runs on the real outputs."""
+
+    NAMES = ("_accumulate_prediction", "_accumulate_prediction_disentangled")
 
     def __init__(self, mod):
         self.mod = mod
         self.lock = threading.Lock()
         self.order = []
         self.index = {}
-        self.orig = (mod._accumulate_prediction, mod._accumulate_prediction_disentangled)
+        self.installed = all(callable(getattr(mod, n, None)) for n in self.NAMES)
+        self.orig = tuple(getattr(mod, n, None) for n in self.NAMES)
 
     def _wrap(self, f):
-        def g(tree, X, min_variance, out, lock):
+        def g(*args, **kw):
             with self.lock:
-                self.order.append(self.index.get(id(tree), -1))
-                return f(tree, X, min_variance, out, lock)
+                self.order.append(self.index.get(id(args[0]), -1) if args else -1)
+                return f(*args, **kw)
         return g
 
     def __enter__(self):
-        self.mod._accumulate_prediction = self._wrap(self.orig[0])
-        self.mod._accumulate_prediction_disentangled = self._wrap(self.orig[1])
+        if self.installed:
+            for n, f in zip(self.NAMES, self.orig):
+                setattr(self.mod, n, self._wrap(f))
         return self
 
     def __exit__(self, *a):
-        self.mod._accumulate_prediction, self.mod._accumulate_prediction_disentangled = self.orig
+        if self.installed:
+            for n, f in zip(self.NAMES, self.orig):
+                setattr(self.mod, n, f)
 
     def take(self):
         o, self.order = self.order, []
         return o
 
 
-def _fit(case):
+def _default_history(case):
+    return [{"op": "fit", "forms": FORMS[:]}, {"op": "set_params", "n_jobs": 4, "forms": FORMS[:]}]
+
+
+def _build(case):
     from deephyper.skopt.learning import ExtraTreesRegressor, RandomForestRegressor
 
     X, y, Q = _data(case)
     kw = dict(case["kw"])
     cls = RandomForestRegressor if case["cls"] == "RF" else ExtraTreesRegressor
-    m = cls(random_state=case["seed"] % 100000, n_jobs=1, **kw).fit(X, y)
+    m = cls(random_state=case["seed"] % 100000, n_jobs=case.get("n_jobs0", 1), **kw).fit(X, y)
     return m, X, y, Q
 
 
-def _fp(clause, case, opts=""):
-    cls = "RandomForestRegressor" if case["cls"] == "RF" else "ExtraTreesRegressor"
-    return f"C18|{clause}|{cls}.predict|{opts}"
+def _call(m, Q, form):
+    if form == "plain":
+        return (np.asarray(m.predict(Q), dtype=float),)
+    if form == "std":
+        r = m.predict(Q, return_std=True)
+    else:
+        r = m.predict(Q, return_std=True, disentangled_std=True)
+    return tuple(np.asarray(a, dtype=float) for a in r)
 
 
-def _observe(ck, case, spy):
-    """returns (request, meta) or None when the oracle already failed without needing the model"""
-    m, X, y, Q = _fit(case)
-    trees = m.estimators_
-    n = len(trees)
-    spy.index = {id(t): i for i, t in enumerate(trees)}
-    tm = np.array([t.predict(Q) for t in trees], dtype=float)  # (n, nq)
-    tv = np.array([t.tree_.impurity[t.apply(Q)] for t in trees], dtype=float)
-    outs = {}
-    for nj in (1, 4):
-        m.set_params(n_jobs=nj)
-        mu0 = np.asarray(m.predict(Q), dtype=float)
-        spy.take()
-        mu1, sd = m.predict(Q, return_std=True)
-        o_std = spy.take()
-        mu2, al, ep = m.predict(Q, return_std=True, disentangled_std=True)
-        o_dis = spy.take()
-        outs[nj] = (mu0, np.asarray(mu1), np.asarray(sd), np.asarray(mu2), np.asarray(al), np.asarray(ep), o_std, o_dis)
-    m.set_params(n_jobs=1)
-    ck.count(f"cls:{case['cls']}")
-    ck.count(f"kind:{case['kind']}")
-    ck.count(f"trees:{'1' if n == 1 else '2-5' if n <= 5 else '6-20' if n <= 20 else '21-50'}")
-    ck.count(f"bootstrap:{case['kw']['bootstrap']}")
-    ck.count(f"splitter:{case['kw'].get('splitter', 'ET')}")
-    ck.count(f"minvar:{case['kw']['min_variance']}")
-    ck.count("order_n_jobs4:" + ("identity" if outs[4][6] == list(range(n)) else "permuted"))
-    bad = False
-    for nj, o in outs.items():
-        arrs = o[:6]
-        if not all(np.all(np.isfinite(a)) for a in arrs):
-            ck.fail(_fp("finite", case), "a predicted mean / std is not finite", case, {"n_jobs": nj, "out": [a.tolist() for a in arrs]})
-            bad = True
-        elif any(np.any(a < 0) for a in arrs[2:3] + arrs[4:6]):
-            ck.fail(_fp("nonneg", case), "a predicted std is negative", case, {"n_jobs": nj})
-            bad = True
-        if sorted(o[6]) != list(range(n)) or sorted(o[7]) != list(range(n)):
-            from .common import HarnessError
-            raise HarnessError(f"order spy saw {o[6]} / {o[7]} for {n} trees")
-    if bad:
-        return None
-    if not (np.all(np.isfinite(tm)) and np.all(np.isfinite(tv))):
-        ck.fail(_fp("finite", case, "tree-output"), "a tree's own prediction / impurity is not finite", case)
-        return None
-    tolv = max(64, 2 * n + 8) * EPS
-    tolm = 4 * n * EPS
-    reqs = []
-    for nj in (1, 4):
-        mu0, mu1, sd, mu2, al, ep, o_std, o_dis = outs[nj]
-        pts = []
-        for j in range(len(Q)):
-            pts.append({"trees": [[rat(tm[i, j]), rat(tv[i, j])] for i in range(n)],
-                        "got": [rat(mu0[j]), rat(mu1[j]), rat(sd[j]), rat(mu2[j]), rat(al[j]), rat(ep[j])]})
-        reqs.append({"op": "forest", "minvar": rat(float(m.min_variance)), "order": [int(i) for i in (o_std if nj == 4 else o_dis)],
-                     "tolv": rat(tolv), "tolm": rat(tolm), "points": pts})
+def _apply(m, op, X, y, Q):
+    k = op["op"]
+    if k == "set_params":
+        m.set_params(**{p: op[p] for p in ("min_variance", "n_jobs") if p in op})
+    elif k == "setattr":
+        m.min_variance = op["min_variance"]
+    elif k == "predict":
+        _call(m, Q, op["form"])
+    elif k == "clone_refit":
+        from sklearn.base import clone
+
+        m = clone(m).fit(X, y)
+    elif k == "pickle":
+        m = pickle.loads(pickle.dumps(m))
+    elif k != "fit":
+        raise HarnessError(f"unknown history op {op}")
+    return m
+
+
+def _run_history(case, spy):
+    """Drive one fitted forest through its history; after every op call the three predict forms and extract,
+    independently (estimators_ / tree.predict / tree_.impurity[tree.apply]), the exact per-tree ground truth.
+    Returns {"rejected": msg} | {"checks": [...], "acq": ...}."""
+    try:
+        m, X, y, Q = _build(case)
+    except ValueError as e:
+        return {"rejected": str(e)[:60]}
+    hist = case.get("history") or _default_history(case)
+    checks = []
+    for step, op in enumerate(hist):
+        chk = {"step": step, "op": op["op"], "error": None}
+        checks.append(chk)
+        try:
+            m = _apply(m, op, X, y, Q)
+            chk["n_jobs"] = m.n_jobs if isinstance(m.n_jobs, int) else 1
+            chk["minvar"] = float(m.min_variance)
+            trees = list(m.estimators_)
+            n = chk["n"] = len(trees)
+            spy.index = {id(t): i for i, t in enumerate(trees)}
+            spy.take()
+            outs, orders = {}, {}
+            for form in op.get("forms", FORMS):
+                outs[form] = _call(m, Q, form)
+                orders[form] = spy.take()
+            # ground truth, obtained without going through the code under test
+            chk["tm"] = np.array([t.predict(Q) for t in trees], dtype=float)
+            chk["tv"] = np.array([t.tree_.impurity[t.apply(Q)] for t in trees], dtype=float)
+            chk["outs"] = outs
+            ok_shapes = (len(outs["plain"]) == 1 and len(outs["std"]) == 2 and len(outs["dis"]) == 3 and
+                         all(a.shape == (len(Q),) for f in FORMS for a in outs[f]))
+            if not ok_shapes:
+                chk["error"] = "shape: " + str({f: [a.shape for a in outs[f]] for f in FORMS})
+            want = list(range(n))
+            chk["order_ok"] = spy.installed and sorted(orders["std"]) == want and sorted(orders["dis"]) == want
+            chk["order"] = [int(i) for i in orders["std"]] if chk["order_ok"] else want
+            chk["order_seen"] = {"installed": spy.installed, "std": orders["std"][:60], "dis": orders["dis"][:60]}
+        except HarnessError:
+            raise
+        except Exception as e:  # the code under test raised in a predict / set_params / clone / pickle step
+            import traceback
+
+            chk["error"] = f"{type(e).__name__}: {e}"
+            chk["trace"] = traceback.format_exc()[-1200:]
+            break
+    res = {"checks": checks, "nq": len(Q), "acq": None}
     # the `d` acquisitions must use the epistemic part only (n_jobs=1: same accumulation order => same doubles)
-    from deephyper.skopt.acquisition import _gaussian_acquisition
+    if not any(c["error"] for c in checks):
+        try:
+            from deephyper.skopt.acquisition import _gaussian_acquisition
 
-    kappa = 1.96
-    mu1, sd = m.predict(Q, return_std=True)
-    mu2, al, ep = m.predict(Q, return_std=True, disentangled_std=True)
-    lcb = _gaussian_acquisition(Q, m, acq_func="LCB", acq_func_kwargs={"kappa": kappa})
-    lcbd = _gaussian_acquisition(Q, m, acq_func="LCBd", acq_func_kwargs={"kappa": kappa})
-    if not np.array_equal(lcbd, mu2 - kappa * ep):
-        ck.fail("C18|d-acquisition-epistemic|_gaussian_acquisition(LCBd)|", "LCBd is not mean - kappa * epistemic std", case,
-                {"lcbd": lcbd.tolist(), "want": (mu2 - kappa * ep).tolist()})
-    if not np.array_equal(lcb, mu1 - kappa * sd):
-        ck.fail("C18|acquisition-total|_gaussian_acquisition(LCB)|", "LCB is not mean - kappa * total std", case)
-    ck.count("acq_d_checked")
-    aleatoric_zero = bool(np.all(tv <= 0))
-    nontrivial = n >= 2 and not np.all(tm == tm[0]) or (not aleatoric_zero)
-    return reqs, {"case": case, "n": n, "nq": len(Q), "nontrivial": bool(nontrivial), "outs": {nj: [a.tolist() for a in o[:6]] for nj, o in outs.items()}}
+            m.set_params(n_jobs=1)
+            kappa = 1.96
+            mu1, sd = m.predict(Q, return_std=True)
+            mu2, al, ep = m.predict(Q, return_std=True, disentangled_std=True)
+            lcb = _gaussian_acquisition(Q, m, acq_func="LCB", acq_func_kwargs={"kappa": kappa})
+            lcbd = _gaussian_acquisition(Q, m, acq_func="LCBd", acq_func_kwargs={"kappa": kappa})
+            res["acq"] = {"lcbd_ok": bool(np.array_equal(lcbd, mu2 - kappa * ep)), "lcb_ok": bool(np.array_equal(lcb, mu1 - kappa * sd)),
+                          "lcbd": np.asarray(lcbd).tolist(), "want": (mu2 - kappa * ep).tolist()}
+        except Exception as e:
+            res["acq"] = {"error": f"{type(e).__name__}: {e}"}
+    return res
 
 
-def _judge(ck, meta, reps):
-    case = meta["case"]
-    for nj, rep in zip((1, 4), reps):
+def _cls_name(case):
+    return "RandomForestRegressor" if case["cls"] == "RF" else "ExtraTreesRegressor"
+
+
+def _requests(res):
+    """one Lean request per check that produced well-formed finite outputs; returns (reqs, early) where early are
+    failures that need no model: [(clause, what, step, detail)]"""
+    reqs, idx, early = [], [], []
+    for k, c in enumerate(res["checks"]):
+        if c["error"]:
+            kind = "output-shape" if c["error"].startswith("shape:") else "raises"
+            early.append((kind, f"step {c['step']} ({c['op']}): {c['error'][:120]}", k, {"error": c["error"], "trace": c.get("trace")}))
+            continue
+        arrs = [a for f in FORMS for a in c["outs"][f]]
+        if not all(np.all(np.isfinite(a)) for a in arrs):
+            early.append(("finite", "a predicted mean / std is not finite", k, {"out": {f: [a.tolist() for a in c["outs"][f]] for f in FORMS}}))
+            continue
+        if not (np.all(np.isfinite(c["tm"])) and np.all(np.isfinite(c["tv"]))):
+            early.append(("finite-tree-output", "a tree's own prediction / impurity is not finite", k, None))
+            continue
+        n = c["n"]
+        tolv = max(64, 2 * n + 8) * EPS
+        tolm = 4 * n * EPS
+        o = c["outs"]
+        pts = []
+        for j in range(res["nq"]):
+            pts.append({"trees": [[rat(c["tm"][i, j]), rat(c["tv"][i, j])] for i in range(n)],
+                        "got": [rat(o["plain"][0][j]), rat(o["std"][0][j]), rat(o["std"][1][j]),
+                                rat(o["dis"][0][j]), rat(o["dis"][1][j]), rat(o["dis"][2][j])]})
+        reqs.append({"op": "forest", "minvar": rat(c["minvar"]), "order": c["order"], "tolv": rat(tolv), "tolm": rat(tolm), "points": pts})
+        idx.append(k)
+    return reqs, idx, early
+
+
+CLAUSES = [("mean_ok", "mean-is-average", "a predicted mean is not the average of the tree predictions"),
+           ("nonneg", "nonneg", "a predicted std is negative"),
+           ("sum_ok", "total-law", "total variance != aleatoric + epistemic variance"),
+           ("al_ok", "aleatoric-is-mean-leaf-variance", "aleatoric part is not the average (floored at the min_variance in force) within-leaf variance"),
+           ("ep_ok", "epistemic-is-variance-of-tree-means", "epistemic part is not the variance of the tree means"),
+           ("var_ok", "total-is-al+ep-exact", "total variance differs from the exact total variance of the trees")]
+
+
+def _evaluate(ck, case, res, reqs, idx, early, reps):
+    """-> (failures [(clause, what, check_index, detail)], l2 problems [detail])"""
+    fails = list(early)
+    l2 = []
+    checks = res["checks"]
+    for k, rep in zip(idx, reps):
+        c = checks[k]
+        if not c["order_ok"]:
+            l2.append({"what": "the accumulation order of the trees could not be observed (the model's fold-order environment): "
+                               "the per-tree accumulate functions were not called once per tree", "step": c["step"], "seen": c["order_seen"],
+                       "n_trees": c["n"], "n_jobs": c["n_jobs"]})
+        first = {}
         for j, p in enumerate(rep["points"]):
             if not (p["means_agree"] and p["total_law"] and p["order_indep"]):
-                ck.mismatch(case, {"what": "model contradicts its own theorems (C18_mean / C18_total / C18_order)", "point": j, "reply": p})
-            det = {"n_jobs": nj, "query": j, "impl": [meta["outs"][nj][k][j] for k in range(6)],
-                   "model": {k: (float(_fr(p[k]))) for k in ("mean", "var", "al", "ep", "scale")}}
-            opts = f"n_jobs={nj}" if nj != 1 else ""
-            if not all(p["mean_ok"]):
-                which = ["predict(X)", "return_std", "disentangled"][p["mean_ok"].index(False)]
-                ck.fail(_fp("mean-is-average", case, opts), f"mean from {which} is not the average of the tree predictions", case, det)
-            if not p["nonneg"]:
-                ck.fail(_fp("nonneg", case, opts), "a predicted std is negative", case, det)
-            if not p["sum_ok"]:
-                ck.fail(_fp("total-law", case, opts), "total variance != aleatoric + epistemic variance", case, det)
-            if not p["al_ok"]:
-                ck.fail(_fp("aleatoric-is-mean-leaf-variance", case, opts), "aleatoric part is not the average (floored) within-leaf variance", case, det)
-            if not p["ep_ok"]:
-                ck.fail(_fp("epistemic-is-variance-of-tree-means", case, opts), "epistemic part is not the variance of the tree means", case, det)
-            if not p["var_ok"]:
-                ck.fail(_fp("total-is-al+ep-exact", case, opts), "total variance differs from the exact total variance", case, det)
-    # n_jobs independence beyond summation order: both runs are within tolerance of the same exact value
-    # (checked above); additionally the two runs must agree with each other within twice the tolerance
-    o1, o4 = meta["outs"][1], meta["outs"][4]
-    rep = reps[0]
-    for j, p in enumerate(rep["points"]):
-        scale = float(_fr(p["scale"]))
-        tolv = max(64, 2 * meta["n"] + 8) * EPS * scale * 2
-        for k in (2, 4, 5):
-            if abs(o1[k][j] ** 2 - o4[k][j] ** 2) > tolv * (1 + 1e-9):
-                ck.fail(_fp("n_jobs-independent", case, "n_jobs=4"), "n_jobs=1 and n_jobs=4 predictions differ beyond summation order", case,
-                        {"query": j, "k": k, "n_jobs1": o1[k][j], "n_jobs4": o4[k][j]})
+                l2.append({"what": "model contradicts its own theorems (C18_mean / C18_total / C18_order)", "point": j, "reply": p})
+            for key, clause, what in CLAUSES:
+                ok = all(p[key]) if key == "mean_ok" else p[key]
+                if not ok and clause not in first:
+                    o = c["outs"]
+                    first[clause] = (clause, what, k, {
+                        "step": c["step"], "op": c["op"], "n_jobs": c["n_jobs"], "min_variance_in_force": c["minvar"], "n_trees": c["n"], "query": j,
+                        "impl": {"predict": o["plain"][0][j], "return_std": [o["std"][0][j], o["std"][1][j]],
+                                 "disentangled": [o["dis"][0][j], o["dis"][1][j], o["dis"][2][j]]},
+                        "exact": {q: float(_fr(p[q])) for q in ("mean", "var", "al", "ep", "scale")}})
+        fails.extend(first.values())
+        c["scale"] = [float(_fr(p["scale"])) for p in rep["points"]]
+    # predictions do not depend on n_jobs beyond summation order: same trees, same min_variance, different n_jobs
+    seen = {}
+    epoch = 0
+    for k in idx:
+        c = checks[k]
+        if c["op"] in ("clone_refit",):
+            epoch += 1
+        key = (epoch, c["minvar"])
+        if key in seen and seen[key]["n_jobs"] != c["n_jobs"]:
+            a, b = seen[key], c
+            for j in range(res["nq"]):
+                tol = max(64, 2 * c["n"] + 8) * EPS * c["scale"][j] * 2 * (1 + 1e-9)
+                pairs = [(a["outs"]["std"][1][j], b["outs"]["std"][1][j]), (a["outs"]["dis"][1][j], b["outs"]["dis"][1][j]),
+                         (a["outs"]["dis"][2][j], b["outs"]["dis"][2][j])]
+                if any(abs(x * x - y * y) > tol for x, y in pairs):
+                    fails.append(("n_jobs-independent", "predictions with different n_jobs differ beyond summation order", k,
+                                  {"query": j, "n_jobs": [a["n_jobs"], b["n_jobs"]], "values": pairs}))
+                    break
+        seen.setdefault(key, c)
+    acq = res.get("acq")
+    if acq:
+        if acq.get("error"):
+            fails.append(("raises", "acquisition on the fitted forest raised: " + acq["error"][:100], len(checks) - 1, acq))
+        else:
+            if not acq["lcbd_ok"]:
+                fails.append(("d-acquisition-epistemic", "LCBd is not mean - kappa * epistemic std", len(checks) - 1, acq))
+            if not acq["lcb_ok"]:
+                fails.append(("acquisition-total", "LCB is not mean - kappa * total std", len(checks) - 1, None))
+    return fails, l2
 
 
 def _fr(s):
-    from .common import unrat
-
     return unrat(s)
+
+
+def _run_and_evaluate(ck, d, case, spy):
+    res = _run_history(case, spy)
+    if "rejected" in res:
+        return res, [], []
+    reqs, idx, early = _requests(res)
+    reps = d.ask_all(reqs)
+    fails, l2 = _evaluate(ck, case, res, reqs, idx, early, reps)
+    return res, fails, l2
+
+
+def _classify(ck, d, spy, case, res, clause, k):
+    """Shrink a failing case and derive the fingerprint options from the shrunk case:
+    stateless (a fresh forest built with the parameters in force fails alone) or a minimal history."""
+    c = res["checks"][k]
+    nj = c.get("n_jobs", 1)
+    fresh = dict(case)
+    fresh["kw"] = dict(case["kw"])
+    if "minvar" in c:
+        fresh["kw"]["min_variance"] = c["minvar"]
+    fresh["n_jobs0"] = nj
+    fresh["history"] = [{"op": "fit", "forms": res["checks"][k] and (case.get("history") or _default_history(case))[c["step"]].get("forms", FORMS)}]
+
+    def fails(cs):
+        _, f, _ = _run_and_evaluate(ck, d, cs, spy)
+        return [x for x in f if x[0] == clause]
+
+    f = fails(fresh)
+    if f:
+        return fresh, ("n_jobs>1" if nj > 1 else ""), f[0]
+    hist = list(case.get("history") or _default_history(case))
+    cur = dict(case)
+    cur["history"] = hist
+    best = None
+    for i in range(len(hist) - 1, 0, -1):
+        trial = dict(cur)
+        trial["history"] = cur["history"][:i] + cur["history"][i + 1:]
+        f = fails(trial)
+        if f:
+            cur, best = trial, f[0]
+    for i in range(1, len(cur["history"])):  # drop option values the failure does not need
+        for field in ("n_jobs", "min_variance"):
+            o = cur["history"][i]
+            if field in o and len([k for k in ("n_jobs", "min_variance") if k in o]) > 1 and o["op"] == "set_params":
+                o2 = {k: v for k, v in o.items() if k != field}
+                trial = dict(cur)
+                trial["history"] = cur["history"][:i] + [o2] + cur["history"][i + 1:]
+                f = fails(trial)
+                if f:
+                    cur, best = trial, f[0]
+    kinds = [o["op"] + ("(min_variance)" if "min_variance" in o else "") + ("(n_jobs)" if o.get("n_jobs", 1) > 1 else "") for o in cur["history"][1:]]
+    return cur, "history=" + ">".join(kinds), best
 
 
 def _load_corpus():
     import json
-    from .common import VERIF
 
     out = []
     d = VERIF / "corpus" / "C18"
@@ -254,59 +447,103 @@ def _load_corpus():
     return out
 
 
+def _stats(ck, case, res):
+    n = res["checks"][0].get("n", 0)
+    ck.count(f"cls:{case['cls']}")
+    ck.count(f"kind:{case['kind']}")
+    ck.count(f"trees:{'1' if n == 1 else '2-5' if n <= 5 else '6-20' if n <= 20 else '21-50'}")
+    ck.count(f"bootstrap:{case['kw']['bootstrap']}")
+    ck.count(f"splitter:{case['kw'].get('splitter', 'ET')}")
+    for c in res["checks"]:
+        ck.count("step:" + c["op"])
+        if c["error"]:
+            continue
+        nj = c["n_jobs"]
+        ck.count(f"check:n_jobs={nj}")
+        if nj > 1:
+            ck.count("check:n_jobs>1," + ("n_trees%n_jobs!=0" if c["n"] % nj else "n_trees%n_jobs==0"))
+            ck.count("order_parallel:" + ("unobserved" if not c["order_ok"] else "identity" if c["order"] == list(range(c["n"])) else "permuted"))
+        ck.count(f"minvar:{c['minvar']}")
+        ck.count("query_points", res["nq"])
+    ops = [o["op"] for o in (case.get("history") or _default_history(case))[1:]]
+    ck.count("history:" + (",".join(sorted(set(ops))) or "none"))
+
+
+def _handle(ck, d, spy, case, budget):
+    res, fails, l2 = _run_and_evaluate(ck, d, case, spy)
+    if "rejected" in res:
+        # scikit-learn rejecting a parameter combination at fit is outside the property (not a fitted forest)
+        ck.count("sklearn-rejected:" + res["rejected"][:40])
+        return
+    tm = res["checks"][0].get("tm")
+    nontrivial = tm is not None and (len(tm) >= 2 and not np.all(tm == tm[0]) or not np.all(res["checks"][0]["tv"] <= 0))
+    ck.case(case, nontrivial=bool(nontrivial))
+    _stats(ck, case, res)
+    for det in l2[:2]:
+        ck.mismatch(case, det)
+    done = set()
+    for clause, what, k, detail in fails:
+        if clause in done:
+            continue
+        done.add(clause)
+        ck.count("oracle:" + clause)
+        if budget.get(clause, 0) >= 4:
+            ck.count("oracle-not-shrunk:" + clause)
+            continue
+        budget[clause] = budget.get(clause, 0) + 1
+        shrunk, opts, f2 = _classify(ck, d, spy, case, res, clause, k)
+        if f2 is not None:
+            what, detail = f2[1], f2[3]
+        ck.fail(f"C18|{clause}|{_cls_name(case)}.predict|{opts}", what, shrunk, detail)
+
+
 def run(ck):
     import deephyper.skopt.learning.forest as forest
 
     ck.rule = ("fitted forests over the quantifier: RandomForestRegressor / ExtraTreesRegressor x 2..200 points x 1..6 features x target kind "
                "(gauss, constant, duplicated X, duplicated rows, huge 1e6..1e120, tiny 1e-6..1e-120, mixed scale, integer grid, large offset) x "
-               "n_estimators 1..50 x splitter x bootstrap x max_samples x min_samples_split x min_samples_leaf x max_depth x max_features x "
-               "min_variance {0,1e-12,1e-3,2.5,1e6} x n_jobs {1,4}; 3-10 query points each (training points, fresh points, outside the hull); "
-               "distinct by generator parameters; non-trivial = at least two trees with different predictions or a non-zero leaf variance")
+               "n_estimators 1..50 (5, 7, 10, 50 frequent) x splitter x bootstrap x max_samples x min_samples_split x min_samples_leaf x max_depth x "
+               "max_features x min_variance {0,1e-12,1e-3,2.5,7,1e6} x n_jobs {1,2,3,4}; each forest goes through a short history on the SAME fitted "
+               "object (predict calls in the three forms in shuffled order, set_params / attribute assignment of min_variance and n_jobs, "
+               "sklearn.base.clone + refit, pickle round trip) and after the fit and after every op all three predict forms are judged with the parameters "
+               "in force at that moment on 3-10 query points (training points, fresh points, outside the hull); distinct by generator parameters; "
+               "non-trivial = at least two trees with different predictions or a non-zero leaf variance")
     ck.assumptions = [
-        "scikit-learn's tree fitting is not modelled: the per-tree (prediction, leaf impurity) pairs are extracted from the fitted trees and are inputs of the model",
+        "scikit-learn's tree fitting is not modelled: the per-tree (prediction, leaf impurity) pairs are extracted from estimators_ independently of the code under test and are inputs of the model",
         "float tolerance: variances within max(64, 2n+8)*eps*(aleatoric + E[m_t^2]) absolute (first-order rounding bound of the accumulation is (1.5n+2)*eps of that scale), means within 4*n*eps*mean|m_t|",
-        "the accumulation order of the n_jobs threads is observed by serialising _accumulate_prediction* under an outer lock; the theorems hold for every order",
+        "the accumulation order of the n_jobs threads is observed by serialising _accumulate_prediction* under an outer lock; the theorems hold for every order; an unobservable order is an L2 mismatch and the oracle still runs",
         "min_variance and impurity are finite doubles",
     ]
     ck.trusted_extra = ["scikit-learn DecisionTreeRegressor.predict / apply / tree_.impurity (used to extract the per-tree pairs)"]
     cases = _load_corpus()
-    ncase = ck.pick(140, 1500)
+    ncase = ck.pick(70, 900)
     cases += [_gen_case(ck.rng, ck.thorough) for _ in range(ncase)]
-    reqs, metas = [], []
-    with _OrderSpy(forest) as spy:
+    budget = {}
+    with ck.driver() as d, _OrderSpy(forest) as spy:
+        if not spy.installed:
+            ck.mismatch({"spy": "forest._accumulate_prediction*"}, "the per-tree accumulate functions no longer exist: accumulation order cannot be observed")
         for case in cases:
-            try:
-                got = _observe(ck, case, spy)
-            except ValueError as e:
-                # scikit-learn rejecting a parameter combination is outside the property (not a fitted forest)
-                ck.count("sklearn-rejected:" + str(e)[:40])
-                continue
-            if got is None:
-                ck.case(case, nontrivial=True)
-                continue
-            r, meta = got
-            ck.case(case, nontrivial=meta["nontrivial"])
-            ck.count("query_points", meta["nq"] * 2)
-            reqs.append(r)
-            metas.append(meta)
-    flat = [x for r in reqs for x in r]
-    with ck.driver() as d:
-        reps = d.ask_all(flat)
-    for k, meta in enumerate(metas):
-        _judge(ck, meta, reps[2 * k: 2 * k + 2])
+            _handle(ck, d, spy, case, budget)
 
 
 def replay(ck, case):
     import deephyper.skopt.learning.forest as forest
 
-    with _OrderSpy(forest) as spy:
-        got = _observe(ck, case, spy)
-    ck.case(case)
-    if got is None:
-        print("replay: the oracle fails before the model is needed (non-finite / negative output)")
+    with ck.driver() as d, _OrderSpy(forest) as spy:
+        res, fails, l2 = _run_and_evaluate(ck, d, case, spy)
+        ck.case(case)
+        for det in l2[:2]:
+            ck.mismatch(case, det)
+        seen = set()
+        for clause, what, k, detail in fails:
+            if clause in seen:
+                continue
+            seen.add(clause)
+            shrunk, opts, f2 = _classify(ck, d, spy, case, res, clause, k)
+            ck.fail(f"C18|{clause}|{_cls_name(case)}.predict|{opts}", what, shrunk, (f2 or (0, 0, 0, detail))[3])
+    if "rejected" in res:
+        print("replay: scikit-learn rejected the configuration:", res["rejected"])
         return
-    r, meta = got
-    with ck.driver() as d:
-        reps = d.ask_all(r)
-    _judge(ck, meta, reps)
-    print("replay:", {"impl": meta["outs"], "failures": [f["fingerprint"] for f in ck.failures]})
+    print("replay:", {"steps": [{"step": c["step"], "op": c["op"], "n_jobs": c.get("n_jobs"), "min_variance": c.get("minvar"), "error": c["error"],
+                                 "std[0]": None if c["error"] else [float(a[0]) for f in FORMS for a in c["outs"][f]]} for c in res["checks"]],
+                      "failures": [f["fingerprint"] for f in ck.failures]})
